@@ -39,6 +39,18 @@ CASE_TIMEOUT = 300
 
 ND = 3
 LAM = Fraction(1, 4)
+# regulariser kinds: False (none), True = l2(1/4), 'cw' = l2(1/2, center_params, params_weights); leaf order [w1, w2, b]
+REG_SPECS = {True: (Fraction(1, 4), [Fraction(0)] * 3, [Fraction(1)] * 3),
+             'cw': (Fraction(1, 2), [Fraction(1, 4), Fraction(-1, 2), Fraction(1, 4)], [Fraction(1), Fraction(2), Fraction(1, 2)])}
+
+
+def _reg_terms(reg, theta, num=float):
+  """(r, grad r) of the case's regulariser at theta = [w1, w2, b]; num = float (oracle) or Fraction (exact)."""
+  if not reg:
+    return (num(0), [num(0)] * 3)
+  lam, c, pw = REG_SPECS[reg]
+  d = [num(t) - num(ci) for t, ci in zip(theta, c)]
+  return (num(lam) * sum(num(p) * x * x for p, x in zip(pw, d)), [2 * num(lam) * num(p) * x for p, x in zip(pw, d)])
 TOL = 2e-5
 PB_GRID = [(bs, nb) for bs in (1, 2, 3, 4, 8) for nb in (1, 2, 3)]
 ALPHA = [0.5, 0.25, 0.25]
@@ -166,39 +178,67 @@ def generate(tier, rng):
     for n in ns:
       for reg in (False, True):
         yield _case(rng, n, reg)
+      if (rep + n) % 3 == 0:
+        yield _case(rng, n, 'cw')            # l2 with center_params and params_weights
+  for i, backend in enumerate(['debug', 'pmap'] * (1 if tier == 'quick' else 4)):
+    c = _case(rng, [5, 0, 8, 3, 1, 12, 2, 9][i], i % 4 >= 2)
+    c['backend'] = backend                    # the for_each_client helpers built under another backend
+    yield c
   # all rows padded: a dataset with rows, but geometries made of padding only are covered by n = 0 + hand
 
 
 # --------------------------------------------------------------------------
 # the implementation under test
 
-def _api(reg):
-  if reg in _API:
-    return _API[reg]
-  import fedjax
-  from fedjax.core import models, regularizers
+def _shared_model():
+  """ONE Model object and ONE per-example-loss function object for every regulariser kind and backend of the process
+  (object reuse: a cache keyed by the loss / model alone would leak one regulariser into another object)."""
+  if 'model' not in _API:
+    from fedjax.core import models
+
+    def apply_for_train(params, batch, rng):
+      del rng
+      return batch['x'] @ params['w'] + params['b']
+
+    def train_loss(batch, pred):
+      return (pred - batch['y'])**2
+
+    model = models.Model(init=lambda rng: None, apply_for_train=apply_for_train,
+                         apply_for_eval=lambda params, batch: apply_for_train(params, batch, None),
+                         train_loss=train_loss, eval_metrics={})
+    _API['model'] = (model, models.model_per_example_loss(model))
+  return _API['model']
+
+
+def _regf(reg):
+  import jax.numpy as jnp
+  from fedjax.core import regularizers
+  if not reg:
+    return None
+  lam, c, pw = REG_SPECS[reg]
+  if reg is True:
+    return regularizers.l2_regularizer(float(lam))
+  tree = lambda v: {'w': jnp.array([float(v[0]), float(v[1])], jnp.float32), 'b': jnp.array(float(v[2]), jnp.float32)}
+  return regularizers.l2_regularizer(weight=float(lam), center_params=tree(c), params_weights=tree(pw))
+
+
+def _api(reg, backend='jit'):
+  key = ('api', reg, backend)
+  if key in _API:
+    return _API[key]
+  from fedjax.core import models, for_each_client
   from fedjax.algorithms import mime, agnostic_fed_avg
-
-  def apply_for_train(params, batch, rng):
-    del rng
-    return batch['x'] @ params['w'] + params['b']
-
-  def train_loss(batch, pred):
-    return (pred - batch['y'])**2
-
-  model = models.Model(init=lambda rng: None, apply_for_train=apply_for_train,
-                       apply_for_eval=lambda params, batch: apply_for_train(params, batch, None),
-                       train_loss=train_loss, eval_metrics={})
-  pel = models.model_per_example_loss(model)
-  regf = regularizers.l2_regularizer(float(LAM)) if reg else None
+  model, pel = _shared_model()
+  regf = _regf(reg)
   grad_fn = models.grad(pel, regf)
-  api = {
-      'model': model, 'pel': pel, 'regf': regf, 'grad': grad_fn, 'mgrad': models.model_grad(model, regf),
-      'evaluator': models.AverageLossEvaluator(pel, regf),
-      'mime': mime.create_grads_for_each_client(grad_fn),
-      'domain': agnostic_fed_avg.create_domain_metrics_for_each_client(pel, ND, regf),
-  }
-  _API[reg] = api
+  with for_each_client.for_each_client_backend(None if backend == 'jit' else backend):
+    api = {
+        'model': model, 'pel': pel, 'regf': regf, 'grad': grad_fn, 'mgrad': models.model_grad(model, regf),
+        'evaluator': models.AverageLossEvaluator(pel, regf),
+        'mime': mime.create_grads_for_each_client(grad_fn),
+        'domain': agnostic_fed_avg.create_domain_metrics_for_each_client(pel, ND, regf),
+    }
+  _API[key] = api
   return api
 
 
@@ -294,10 +334,38 @@ def _vec(g):
   return [_fl(g['w'][0]), _fl(g['w'][1]), _fl(g['b'])]
 
 
-def _params(case, which=1):
+def _params(case, which=1, as_numpy=False):
   import jax.numpy as jnp
   w, b = (case['w'], case['b']) if which == 1 else (case['w2'], case['b2'])
+  if as_numpy:
+    return {'w': np.array([w[0] / 4, w[1] / 4], np.float32), 'b': np.float32(b / 4)}
   return {'w': jnp.array([w[0] / 4, w[1] / 4], jnp.float32), 'b': jnp.array(b / 4, jnp.float32)}
+
+
+CIDS = [b'c', 'c', 0, b'', '']
+
+
+def _clients(items, form):
+  """The clients argument as a list, a tuple or a one-shot generator."""
+  if form == 1:
+    return tuple(items)
+  if form == 2:
+    return (x for x in items)
+  return items
+
+
+def _snapshot(tree):
+  import jax
+  return [np.array(x) for x in jax.tree_util.tree_leaves(tree)]
+
+
+def _unchanged(tree, snap):
+  import jax
+  try:
+    now = [np.array(x) for x in jax.tree_util.tree_leaves(tree)]
+  except RuntimeError:      # a deleted (donated) buffer
+    return False
+  return len(now) == len(snap) and all(a.dtype == b.dtype and a.shape == b.shape and np.array_equal(a, b) for a, b in zip(now, snap))
 
 
 ALGO_GEOS = [(1, 1), (4, 2), (8, 3)]
@@ -370,8 +438,8 @@ def _closed_at(case, p, rows):
   w, b = np.array(p[:2], np.float64), float(p[2])
   e = X @ w + b - Y
   G = np.stack([2 * e * X[:, 0], 2 * e * X[:, 1], 2 * e], axis=1) if len(rows) else np.zeros((0, 3))
-  lam = float(LAM) if case['reg'] else 0.0
-  return e * e, G, lam * (w @ w + b * b), 2 * lam * np.array([w[0], w[1], b])
+  r, dr = _reg_terms(case['reg'], [float(w[0]), float(w[1]), float(b)])
+  return e * e, G, r, np.array(dr)
 
 
 def _anear(a, b):
@@ -583,14 +651,20 @@ def run(case):
   import jax.numpy as jnp
   from fedjax.core import models, tree_util, client_datasets
   from fedjax.algorithms import hyp_cluster
-  api = _api(case['reg'])
-  params = _params(case)
+  backend = case.get('backend', 'jit')
+  api = _api(case['reg'], backend)
   rng = jax.random.PRNGKey(7)
   n = len(case['y'])
   allrows = list(range(n))
-  obs = {'geos': []}
+  obs = {'geos': [], 'inputs_unchanged': True}
   for gi, geo in enumerate(case['geos']):
+    params = _params(case, as_numpy=(gi % 2 == 1))      # numpy and jax parameter arrays alternate
+    cid = CIDS[(gi + n) % len(CIDS)]                     # bytes / str / int 0 / empty ids
+    cform = gi % 3                                        # clients as list / tuple / generator
     batches = _materialise(case, geo, allrows)
+    if geo[0] == 'hand' and gi % 2 == 0:                 # jax instead of numpy batch arrays
+      batches = [{k: jnp.asarray(v) for k, v in b.items()} for b in batches]
+    snap = _snapshot((params, batches))
     view = _view(case, geo, allrows)
     form = DELIVERY[gi % len(DELIVERY)]
     masked = geo[0] != 'plain'
@@ -613,9 +687,19 @@ def run(case):
     g['avg_forms'] = {}
     for f in DELIVERY:
       vals = [_fl(models.evaluate_average_loss(params, _deliver(batches, f, view), rng, api['pel'], api['regf']))]
-      vals += [_fl(v) for _, v in api['evaluator'].evaluate_global_params(params, [('c', _deliver(batches, f, view), rng)])]
-      vals += [_fl(v) for _, v in api['evaluator'].evaluate_per_client_params([('c', _deliver(batches, f, view), rng, params)])]
+      vals += [_fl(v) for _, v in api['evaluator'].evaluate_global_params(
+          params, _clients([(cid, _deliver(batches, f, view), rng)], cform))]
+      vals += [_fl(v) for _, v in api['evaluator'].evaluate_per_client_params(
+          _clients([(cid, _deliver(batches, f, view), rng, params)], cform))]
       g['avg_forms'][f] = vals
+    # two clients handed the SAME view / list object (interleaving) must both get the full result
+    shared_obj = view if view is not None else batches
+    g['shared_view'] = [_fl(v) for _, v in api['evaluator'].evaluate_global_params(
+        params, [(b'a', shared_obj, rng), (b'b', shared_obj, rng)])]
+    if gi == 0:
+      with jax.disable_jit():
+        g['nojit'] = [_fl(models.evaluate_average_loss(params, batches, rng, api['pel'], api['regf']))] + \
+                     ([_vec(api['grad'](params, batches[0], rng))] if batches else [])
     g['avg'] = g['avg_forms']['list']
     g['delivery'] = form
     # E / F need the mask key
@@ -628,14 +712,14 @@ def run(case):
       else:
         client_batches = [batches]
         client_views = [None]
-      outs = list(api['mime'](params, [(i, _deliver(cb, form, cv), rng)
-                                        for i, (cb, cv) in enumerate(zip(client_batches, client_views))]))
+      outs = list(api['mime'](params, _clients([(i, _deliver(cb, form, cv), rng)
+                                                 for i, (cb, cv) in enumerate(zip(client_batches, client_views))], cform)))
       g['mime_layout'] = [_layout(cb) for cb in client_batches]
       g['mime_clients'] = [_vec(gs) + [_fl(num)] for _, (gs, num) in outs]
       gsum, nsum = tree_util.tree_sum(co for _, co in outs)
       g['mime_server'] = _vec(tree_util.tree_inverse_weight(gsum, nsum))
       shared = {'params': params, 'alpha': jnp.array(ALPHA, jnp.float32)}
-      (_, dm), = list(api['domain'](shared, [('c', _deliver(batches, form, view), rng)]))
+      (_, dm), = list(api['domain'](shared, _clients([(cid, _deliver(batches, form, view), rng)], cform)))
       g['domain'] = {'loss': [float(v) for v in np.asarray(dm['domain_loss'])],
                      'num': [float(v) for v in np.asarray(dm['domain_num'])], 'beta': _fl(dm['beta'])}
     # G. HypCluster per-cluster average losses (geometry through PaddedBatchHParams only)
@@ -645,6 +729,7 @@ def run(case):
       cl = hyp_cluster._cluster_losses(api['evaluator'], [params, _params(case, 2)], clients,
                                        client_datasets.PaddedBatchHParams(batch_size=geo[1], num_batch_size_buckets=geo[2]))
       g['hyp'] = [[_fl(v) for v in cl['a']], [_fl(v) for v in cl['b']]]
+    obs['inputs_unchanged'] = bool(obs['inputs_unchanged'] and _unchanged((params, batches), snap))
     obs['geos'].append(g)
   return obs
 
@@ -660,10 +745,8 @@ def _closed(case, which=1):
   e = X @ w + b - Y
   loss = e * e
   G = np.stack([2 * e * X[:, 0], 2 * e * X[:, 1], 2 * e], axis=1) if len(Y) else np.zeros((0, 3))
-  lam = float(LAM) if case['reg'] else 0.0
-  r = lam * (w @ w + b * b)
-  dr = 2 * lam * np.array([w[0], w[1], b])
-  return loss, G, r, dr
+  r, dr = _reg_terms(case['reg'], [float(w[0]), float(w[1]), float(b)])
+  return loss, G, r, np.array(dr)
 
 
 def _near(a, b):
@@ -697,6 +780,8 @@ def oracle(case, obs):
     if key not in [k for k, _ in out]:
       out.append((key, msg))
 
+  if obs.get('inputs_unchanged') is False:
+    add('inputs-mutated', 'params or batch arrays handed to grad / evaluate_average_loss / the for_each_client helpers changed (or were deleted)')
   first_dom = None
   for gi, (geo, g) in enumerate(zip(case['geos'], obs['geos'])):
     tag = geo[0]
@@ -722,6 +807,14 @@ def oracle(case, obs):
         add('avg-loss.empty' if n == 0 else f'avg-loss.closed-form.{name}', f'{tag}: {name} = {v}, closed form {exp_avg}')
       if not _near(v, obs['geos'][0]['avg'][0]):
         add('avg-loss.geometry', f'{name} under {geo[:1] + geo[1:3] if tag != "hand" else "hand"} = {v}, under the first geometry {obs["geos"][0]["avg"][0]}')
+    for k2, v in enumerate(g.get('shared_view', [])):
+      if not _near(v, exp_avg):
+        add('avg-loss.shared-view', f'{tag}: two clients given the same batches object: client {k2} average loss {v}, closed form {exp_avg}')
+    if 'nojit' in g:
+      if not _near(g['nojit'][0], exp_avg):
+        add('avg-loss.disable-jit', f'{tag}: evaluate_average_loss under jax.disable_jit() = {g["nojit"][0]}, closed form {exp_avg}')
+      if len(g['nojit']) > 1 and not all(_near(a, b) for a, b in zip(g['nojit'][1], g['grad'][0])):
+        add('grad.disable-jit', f'{tag}: grad under jax.disable_jit() {g["nojit"][1]} differs from the jitted {g["grad"][0]}')
     for f, vals in g['avg_forms'].items():
       for name, v in zip(('evaluate_average_loss', 'evaluator.global', 'evaluator.per-client'), vals):
         if not _near(v, exp_avg) or not _near(v, g['avg'][0]):
@@ -780,9 +873,10 @@ def _exact(case):
   def row(x1, x2, y):
     e = w[0] * x1 + w[1] * x2 + b - y
     return [e * e, 2 * e * x1, 2 * e * x2, 2 * e]
-  lam = LAM if case['reg'] else None
-  r = None if lam is None else lam * (w[0] * w[0] + w[1] * w[1] + b * b)
-  dr = [None] * 3 if lam is None else [2 * lam * w[0], 2 * lam * w[1], 2 * lam * b]
+  if case['reg']:
+    r, dr = _reg_terms(case['reg'], [w[0], w[1], b], Fraction)
+  else:
+    r, dr = None, [None] * 3
   real = [row(_q(x[0]), _q(x[1]), _q(y)) for x, y in zip(case['x'], case['y'])]
   return real, row, r, dr
 
